@@ -8,6 +8,8 @@ Oracle (mc.ref.gpref_b, 50 digits): prior N(m, K), likelihood N(A x, S):
     evidence = log N(y; A m, J) (+ m/2 log 2 pi: either convention), gradient = Richardson of the 50-digit evidence.
 The mean axis includes "N": a user-defined MeanFunction subclass (written here, the way the class documentation invites)
 that is non-linear in its hyper-parameters, m(x) = exp(a) sin(b x_0 + c); same 50-digit oracle.
+Data units: the same problems with y, y_err and the model matrix multiplied by 1e-9, 1e-6, 1e6, 1e9 (posterior unchanged,
+evidence shifted), y_err {spread 0.1 x (1,2,5,0.5,3), uniform, mixed}: same oracle on the same floats, same derived tolerances.
 
 history  : call histories on ONE inverter object: every sequence of <= 3 calls over {calculate_posterior,
            calculate_posterior_mean, marginal_likelihood, marginal_likelihood_gradient} x 3 hyper-parameter vectors, the
